@@ -416,7 +416,11 @@ check_for_constructor(CPPScope *current_scope, CPPScope *global_scope) {
         }
 
         CPPParameterList *params = func->_parameters;
-        if (params->_parameters.size() == 1 && !params->_includes_ellipsis) {
+        // A copy or move constructor may have further parameters, provided
+        // that all of them have default arguments.
+        if (!params->_parameters.empty() && !params->_includes_ellipsis &&
+            (params->_parameters.size() == 1 ||
+             params->_parameters[1]->_initializer != nullptr)) {
           CPPType *param_type = params->_parameters[0]->_type;
           CPPReferenceType *ref_type = param_type->as_reference_type();
 
